@@ -78,7 +78,10 @@ def gen_case(rng):
         # some history before the allocation: more dates, a spread that moves from date to date, and - for a flat security - either
         # idle throughout (declared up front, never traded) or opened and closed earlier and idle since
         n = rng.choice([3, 4, 5])
-        hist = {"n": n, "roundtrip": pk == "flat" and rng.random() < 0.5}
+        hist = {"n": n, "roundtrip": pk == "flat" and rng.random() < 0.5,
+                # the very same allocation was already made (and unwound) on the eve, at the same price, under another spread:
+                # every quantity the sizing looks at today has been priced before
+                "rehearse": rng.random() < 0.5}
         if bo is not None:
             hist["spreads"] = [min(price * 0.5, bo * rng.choice([0.25, 0.5, 2.0, 3.0, 1.0])) for _ in range(n - 1)] + [bo]
     return {"hist": hist, "price": price, "mult": mult, "integer": integer, "pos": pos, "comm": comm, "bidoffer": bo, "amount": amount,
@@ -134,6 +137,19 @@ def build(bt, case):
         sec.transact(case["pos"])
         holder.commission_fn = fn
     root.update(dates[n - 2])
+    if hist.get("rehearse") and case["bad"] is None and abs(case["amount"]) > 1e-12:
+        p0 = sec._position
+        try:
+            sec.allocate(case["amount"])
+            root.update(dates[n - 2])
+            dq = sec._position - p0
+            if dq != 0:
+                holder.commission_fn = E.make_comm(0, 0, 0)
+                sec.transact(-dq)
+                holder.commission_fn = fn
+                root.update(dates[n - 2])
+        except Exception:
+            holder.commission_fn = fn
     if case["bad"] is None or case["pos"] == 0:
         root.update(dates[n - 1])
     else:
